@@ -25,6 +25,9 @@ type ctl struct {
 	viaBody bool // use Bind().Body() (source selected by Content-Type) instead of the per-source method
 	auto    bool // Bind().WithAutoHandling()
 	newDst  func() any
+	// manualExplicit: without automatic handling the handler says so (Bind().WithoutAutoHandling()) instead of relying
+	// on the documented default; set for the servers with splitting on, so that both spellings are explored
+	manualExplicit bool
 	// prog: the handler performs several binds in this order on the one request (combined family, combo.go);
 	// every step binds into a fresh value of the shape and is recorded in obs.multi
 	prog []bindStep
@@ -57,6 +60,7 @@ type station struct {
 	srv   *fasthttp.Server
 	cl    *client.Client
 	flv   flavor
+	split bool
 	envCl map[envOpt]*client.Client // clients carrying one client-level envelope option each (family.go)
 	ctl   ctl
 	obs   obs
@@ -70,6 +74,8 @@ func bindInto(c fiber.Ctx, k ctl, dst any) error {
 	b := c.Bind()
 	if k.auto {
 		b = b.WithAutoHandling()
+	} else if k.manualExplicit {
+		b = b.WithoutAutoHandling()
 	}
 	if k.viaBody {
 		return b.Body(dst)
@@ -118,7 +124,7 @@ func newStation(split bool) *station { return newStationFlavor(split, flvPlain) 
 
 // newStationFlavor builds a server whose configuration carries fields that are redundant for binding (cfg.go).
 func newStationFlavor(split bool, flv flavor) *station {
-	st := &station{flv: flv}
+	st := &station{flv: flv, split: split}
 	cfg := fiber.Config{
 		EnableSplittingOnParsers: split,
 		ReadBufferSize:           1 << 17, // long slices in headers / query strings must fit the request head
@@ -141,6 +147,7 @@ func newStationFlavor(split bool, flv flavor) *station {
 			// several binds on the one request, each into a fresh value
 			for _, step := range st.ctl.prog {
 				k := st.ctl
+				k.manualExplicit = st.split
 				k.src, k.viaBody = step.src, step.viaBody
 				dst := st.ctl.newDst()
 				err := bindInto(c, k, dst)
@@ -156,7 +163,9 @@ func newStationFlavor(split bool, flv flavor) *station {
 			return c.SendString("ok")
 		}
 		dst := st.ctl.newDst()
-		err := bindInto(c, st.ctl, dst)
+		k := st.ctl
+		k.manualExplicit = st.split
+		err := bindInto(c, k, dst)
 		st.obs.got, st.obs.err = dst, err
 		if err != nil {
 			if st.ctl.auto {
